@@ -686,3 +686,10 @@ def fx_panicsafe(fx):
     c = _ctx()
     n = shrink.len_committed_per_item(c, fx, ["src/lib.rs"], only=lambda fid: "psfx::" in fid)
     return n == 2 and _fires(c, "psfx::RawVec::bad_extend") and not _fires(c, "psfx::RawVec::ok_extend")
+
+
+def fx_identity(fx):
+    from rules import simdsign
+    c = _ctx()
+    n = simdsign.ptr_identity_fast_path(c, fx, ["src/lib.rs"], only=lambda fid: "identfx::" in fid)
+    return n == 2 and _fires(c, "identfx::bad_compare") and not _fires(c, "identfx::ok_compare")
